@@ -458,6 +458,16 @@ def run_shard(ctx: Ctx, rec: Recorder) -> None:
         body = rng.choice([None, None, b"abc", "str", [b"c1", b"c2"], ("array-H", b"xxxGET /smuggled HTTP/1.1\r\nHost: evil.test\r\n\r\n")]) if m not in ("GET", "HEAD") else None
         rec.case(["rand", entry, m, u, header_items(hdrs), repr(body)])
         judge(rec, entry, m, u, hdrs, body, "random")
+    # empty and tiny bodies under caller-requested chunked framing: the terminating chunk must appear exactly once
+    if ctx.shard == 0:
+        for entry in entries:
+            for body in (b"", "", b"x", "y", [b""], [b"", b"z", b""]):
+                for te in ("chunked", "Chunked"):
+                    for m in ("POST", "PUT"):
+                        url0 = "/upload" if entry in ("conn", "pool") else "http://h.test/upload"
+                        rec.case(["empty-chunked", entry, repr(body), te, m])
+                        rec.mon("empty_body_chunked")
+                        judge(rec, entry, m, url0, {"Transfer-Encoding": te, "X-After": "1"}, body, "empty-chunked")
     h2_checks(ctx, rec)
 
 
